@@ -15,6 +15,7 @@ import (
 	pulsarrt "github.com/cosmos/cosmos-proto/runtime"
 	"github.com/cosmos/cosmos-proto/zzverif/proj"
 	"google.golang.org/protobuf/encoding/protowire"
+	"google.golang.org/protobuf/proto"
 )
 
 func init() {
@@ -186,4 +187,111 @@ func cmdVarintSweep(args []string) {
 	}
 	b, _ := json.Marshal(map[string]any{"summary": true, "evaluated": total.Load(), "bad": bad.Load()})
 	vf.Write(append(b, '\n'))
+}
+
+func init() { extraCmds["skip-sweep"] = cmdSkipSweep }
+
+// cmdSkipSweep: well-formed records built from a description (field number, wire type, payload
+// length / varint width), each followed by trailing bytes; runtime.Skip must return exactly the
+// record's length, and a message type that does not declare the field must store the record
+// byte for byte as unknown and re-emit it. Validated by spec/Trace_Skip.tla.
+func cmdSkipSweep(args []string) {
+	fs := flag.NewFlagSet("skip-sweep", flag.ExitOnError)
+	typ := fs.String("type", "ImportedMessage", "message type to decode the records into (as unknown fields)")
+	maxLen := fs.Int("maxlen", 1100, "every payload length 0..maxlen")
+	seed := fs.Int64("seed", 1, "")
+	out := fs.String("out", "", "events ndjson")
+	fs.Parse(args)
+	mt := findType(*typ)
+	md := mt.Descriptor()
+	of, _ := os.Create(*out)
+	defer of.Close()
+	w := bufio.NewWriterSize(of, 1<<20)
+	defer w.Flush()
+	r := rand.New(rand.NewSource(*seed))
+	// field numbers of every tag width that the type does not declare
+	var nums []int
+	for _, n := range []int{1, 15, 16, 2047, 2048, 262143, 262144, 33554431, 33554432, 536870911} {
+		for md.Fields().ByNumber(protowire.Number(n)) != nil || md.ReservedRanges().Has(protowire.Number(n)) || (n >= 19000 && n <= 19999) {
+			n--
+		}
+		if n >= 1 {
+			nums = append(nums, n)
+		}
+	}
+	emit := func(num, wt, n, vlen int, d uint64, rec []byte) {
+		trailer := []byte{0x08, 0x96, 0x01, 0xff}[:r.Intn(5)]
+		buf := append(append([]byte(nil), rec...), trailer...)
+		ev := map[string]any{"ev": "skiprec", "num": num, "wt": wt, "n": n, "nd": proj.Digits64(uint64(n)), "vlen": vlen, "d": proj.Digits64(d),
+			"reclen": len(rec), "got": 0, "err": false, "panic": "", "unk_ok": true, "note": ""}
+		var got int
+		var err error
+		ev["panic"] = catch(func() { got, err = pulsarrt.Skip(buf) })
+		ev["got"], ev["err"] = got, err != nil
+		// stored as unknown, alone and followed by a second (varint) record of another unknown field
+		note := ""
+		if pn := catch(func() {
+			for _, in := range [][]byte{rec, append(append([]byte(nil), rec...), protowire.AppendVarint(protowire.AppendTag(nil, protowire.Number(nums[len(nums)-1]), protowire.VarintType), 300)...)} {
+				m := mt.New().Interface()
+				if err := proto.Unmarshal(in, m); err != nil {
+					note += "unmarshal: " + err.Error() + "; "
+					continue
+				}
+				if !bytes.Equal(m.ProtoReflect().GetUnknown(), in) {
+					note += fmt.Sprintf("unknown set has %d bytes, record(s) %d; ", len(m.ProtoReflect().GetUnknown()), len(in))
+				}
+				if b, err := proto.Marshal(m); err != nil || !bytes.Equal(b, in) {
+					note += "re-marshal differs; "
+				}
+			}
+		}); pn != "" {
+			note += "panic: " + pn
+		}
+		ev["unk_ok"], ev["note"] = note == "", trunc(note, 200)
+		b, _ := json.Marshal(ev)
+		w.Write(b)
+		w.WriteByte('\n')
+	}
+	bytesRec := func(num, n int) []byte {
+		rec := protowire.AppendTag(nil, protowire.Number(num), protowire.BytesType)
+		rec = protowire.AppendVarint(rec, uint64(n))
+		p := make([]byte, n)
+		for i := range p {
+			p[i] = byte(0x80 | i) // continuation-looking filler
+		}
+		return append(rec, p...)
+	}
+	for n := 0; n <= *maxLen; n++ {
+		for _, num := range []int{nums[0], nums[2], nums[len(nums)-1]} {
+			emit(num, 2, n, 0, 0, bytesRec(num, n))
+		}
+	}
+	for _, n := range []int{16382, 16383, 16384, 16385, 2097151, 2097152} {
+		for _, num := range nums {
+			emit(num, 2, n, 0, 0, bytesRec(num, n))
+		}
+	}
+	// varint values of every width, minimal and padded to every longer valid width
+	for k := 0; k < 64; k++ {
+		for _, d := range []uint64{1<<uint(k) - 1, 1 << uint(k), 1<<uint(k) + 1, ^uint64(0) >> uint(k)} {
+			min := protowire.SizeVarint(d)
+			for vlen := min; vlen <= 10; vlen++ {
+				if vlen > min && r.Intn(3) > 0 {
+					continue
+				}
+				num := nums[r.Intn(len(nums))]
+				rec := protowire.AppendTag(nil, protowire.Number(num), protowire.VarintType)
+				v := protowire.AppendVarint(nil, d)
+				for len(v) < vlen { // pad: set the continuation bit of the last byte, append zero groups
+					v[len(v)-1] |= 0x80
+					v = append(v, 0)
+				}
+				emit(num, 0, 0, vlen, d, append(rec, v...))
+			}
+		}
+	}
+	for _, num := range nums {
+		emit(num, 1, 0, 0, 0, append(protowire.AppendTag(nil, protowire.Number(num), protowire.Fixed64Type), 1, 2, 3, 4, 5, 6, 7, 0x80))
+		emit(num, 5, 0, 0, 0, append(protowire.AppendTag(nil, protowire.Number(num), protowire.Fixed32Type), 0xff, 0xff, 0xff, 0xff))
+	}
 }
